@@ -7,8 +7,9 @@
    constraint phi of the supported fragment,
        evaluate(phi, t) = TRUE  <->  t |= phi      evaluate(phi, t) = FALSE  <->  not t |= phi
    never UNKNOWN when Z3 decides the instantiated atoms, never an exception; same for
-   ISLaSolver.check.  The faithful model REFUTES the full statement in two classes
-   (C03_eval_wide_refuted, C03_mexpr_eps_shape_refuted; a third, vacuous universal quantifiers
+   ISLaSolver.check.  The faithful model REFUTES the full statement in four classes
+   (C03_eval_wide_refuted, C03_mexpr_eps_shape_refuted, C03_eval_consecutive_refuted,
+   C03_evaluate_rebound_refuted; a further one, vacuous universal quantifiers
    dropped by instantiation, was repaired in /repo by 0230f8f: C03_evaluate_vacuous_agrees); what is proved for ALL inputs is
    C03_eval_correct_partial: the statement for the evaluation proper (evaluate_legacy on the
    instantiated formula) under the guards
@@ -47,9 +48,32 @@
    filter of matches_for_quantified_formula are invisible.  All hypotheses are decidable
    (mexpr_guard, C03_mexpr_guard_sound); the harness evaluates the guard on every generated
    match-expression case (138 of 168 inside, quick tier).
-   Still missing for the full statement: the instantiation step inst_const (modelled, tied by the
-   correspondence; no lemma yet that it preserves `models`), the second strategy for numeric
-   quantifiers (Z3 oracle), BindExpression.to_tree_prefix (prefix trees are inputs). *)
+   SECOND PROOF EXTENSION (last part of this file; Logic/EvalInstFacts.v, EvalInstCheck.v): the
+   theorems are now about the property's observable, evaluate(phi, t) and ISLaSolver.check(t) on
+   the PARSED / API-built (uninstantiated) formula, against  t |= phi  (sat: [cst |-> t] |= phi):
+     C03_inst_const_spec          instantiate_top_level_constant preserves the guard (the scope loses
+                                  the constant) and the meaning, all formulas of the fragment;
+     C03_evaluate_correct_partial / C03_solver_check_correct_partial   (abstract atoms; premises on
+                                  SMTFormula.substitute_expressions listed there)
+     C03_evaluate_correct_atoms / C03_solver_check_correct_atoms        (NO premise on atoms):
+         evaluate = TRUE <-> t |= phi, = FALSE <-> not, never UNKNOWN, never an exception;
+         check = True <-> t |= phi, = False <-> not, never raises (no UnknownResultError);
+       guards = those of C03_eval_correct_mexpr on the uninstantiated formula with the constant in
+       scope (wfm ... [cst] f), the constant is a Constant of the root's type, every match expression
+       has at least one prefix tree (me_nonempty); all decidable: evaluate_guard,
+       C03_evaluate_guard_sound; the harness evaluates the guard on the generated first-strategy
+       cases (quick tier: about 78 % inside);
+     C03_dispatch (FULL, every formula, no guard)   evaluate = instantiate iff the constant is free;
+       numeric quantifier anywhere -> the result is the second strategy's (oracle strategy2), else
+       evaluate_legacy on the instantiated formula; C03_wfm_no_numq: inside the guard it is legacy;
+     C03_evaluate_rebound_refuted   the guard fresh_name can NOT be removed (class K_rebound_name has
+       an evaluator side for API-built formulas, reproduced on /repo, recorded as finding
+       rebound-name-evaluator): with wfm_nofresh (= wfm minus fresh_name, C03_wfm_wfm_nofresh) in
+       place of wfm the statement fails.
+   Still missing for the full statement: the second strategy for numeric quantifiers itself (Z3
+   oracle: only the dispatch is proved), BindExpression.to_tree_prefix (prefix trees are inputs),
+   the `&`/`|` smart constructors inside substitute_expressions (not modelled, see Eval.v), and the
+   four refuted classes (K_wide, K_mexpr_eps_shape, K_cons_rel, K_rebound_name) stay excluded. *)
 From Coq Require Import ZArith.
 From ISLA Require Import Semantics Eval EvalAtoms EvalFacts MatchFacts EvalMexprFacts EvalMexprCheck EvalInstFacts EvalInstCheck.
 
@@ -487,7 +511,9 @@ Print Assumptions C03_evaluate_hypotheses_satisfiable.
         twice (well_formed() rejects, evaluate() does not call it): `new | assignments` keeps the OLD
         binding: evaluate FALSE, specification TRUE. *)
 Theorem C03_evaluate_rebound_refuted :
-  (evaluate_guard R_tree W_cst R_formula_renamed = true /\ m_evaluate R_tree W_cst R_formula_renamed = Ok TT) /\
+  (evaluate_guard R_tree W_cst R_formula_renamed = true /\ m_evaluate R_tree W_cst R_formula_renamed = Ok TT /\
+   K_rebound_name [W_cst] R_formula_renamed = false /\ K_rebound_name [W_cst] R_formula = true /\
+   K_rebound_name [W_cst] R2_formula = true) /\
   (shape_ok R_tree = true /\ is_openT R_tree = false /\ uniq_ids R_tree /\ narrow R_tree /\
    term_leavesb R_tree = true /\ lbl R_tree = vtype W_cst /\ vk W_cst = VConst /\
    wfm_nofresh R_tree [W_cst] R_formula /\ me_nonempty R_formula = true /\
